@@ -120,7 +120,7 @@ class C05(Prop):
                 holds = False; why.append(f"order dependence: {case['h1']} -> {i1} but {case['perm']} -> {ip}")
         key = "".join(sorted(case["h1"])) if s1[0] != 0 else None
         tags = [f"cat={s1[0]}", "tie" if s1 == s2 and sorted(case["h1"]) != sorted(case["h2"]) else "cmp"]
-        return Verdict(agree, holds, "; ".join(why[:4]), key, tags)
+        return Verdict(agree, holds, " ;; ".join(why[:4]), key, tags)
 
 
 def dense_deal(rng, nboard=5, sizes=(4, 2)):
@@ -204,4 +204,4 @@ class C06(Prop):
                 why.append(f"{what} strength of board {case['board']} hand {case['h4'] if 'Omaha' in what else case['h2']} is {io[k]}, "
                            f"the best legal five-card hand has key {m[sk]}")
         key = "".join(sorted(case["board"])) + "|" + "".join(sorted(case["h4"])) if m["ospec"][0] >= 1 else None
-        return Verdict(agree, holds, "; ".join(why[:4]), key, [f"omaha-cat={m['ospec'][0]}", f"holdem-cat={m['hspec'][0]}"])
+        return Verdict(agree, holds, " ;; ".join(why[:4]), key, [f"omaha-cat={m['ospec'][0]}", f"holdem-cat={m['hspec'][0]}"])
